@@ -28,6 +28,13 @@
 //   opt <min_range|max_step_over_range|fixed_step_limiter|linear_loss_limit|
 //        lowest_electron_energy> X
 //   primary <particle name> <E MeV> <x y z cm> <u v w> <event> <count>
+//   msc 0|1    (mock: Urban MSC for e-/e+ in the along-step; UrbanMscParams is built from hand-made
+//               tables: scaled cross section xs*E^2 = mscxs * {1, 1e3, 10, 1e-12} MeV^2/cm in the
+//               four materials, log grid 1e-4..100 MeV; along linear|fluct use the stock
+//               AlongStepGeneralLinearAction with these params, vlinear|vfluct the same appliers
+//               with a recording adapter around celeritas::UrbanMsc (M lines))
+//   mscalg minimal|safety|safety_plus|distance_to_boundary   (PhysicsParamsOptions)
+//   mscxs X
 //   errat N    (N>0: a harness action of order `along`, running after the real along-step
 //               actions, calls the REAL CoreTrackView::apply_errored() on every alive track whose
 //               step counter has just reached N: status errored, post-step action = tracking cut;
@@ -56,7 +63,11 @@
 #include "celeritas/SimpleTestBase.hh"
 #include "celeritas/em/distribution/EnergyLossHelper.hh"
 #include "celeritas/em/distribution/EnergyLossTraits.hh"
+#include "celeritas/em/msc/UrbanMsc.hh"
 #include "celeritas/em/params/FluctuationParams.hh"
+#include "celeritas/em/params/UrbanMscParams.hh"
+#include "celeritas/io/ImportModel.hh"
+#include "celeritas/random/distribution/NormalDistribution.hh"
 #include "celeritas/geo/GeoMaterialParams.hh"
 #include "celeritas/geo/GeoParams.hh"
 #include "celeritas/global/ActionInterface.hh"
@@ -118,7 +129,10 @@ struct Config
 {
     std::string problem = "simple";
     unsigned long slots = 16, capacity = 4096, maxevents = 16, seed = 20220511, maxsteps = 100000;
-    unsigned long errat = 0;   // >0: mark every alive track errored after its errat-th along-step
+    unsigned long errat = 0;
+    bool msc = false;          // Urban MSC in the along-step (mock problem, hand-made tables)
+    std::string mscalg = "safety";
+    double mscxs = 1.0;        // scale of the hand-made MSC cross sections   // >0: mark every alive track errored after its errat-th along-step
     double stackfactor = 3.0;
     std::string order = "none";
     std::string along = "linear";
@@ -288,12 +302,115 @@ struct RecELoss
     static constexpr bool imprecise_range() { return EH::imprecise_range(); }
 };
 
+//! Wraps celeritas::UrbanMsc: forwards every call, records inputs / outputs (M line)
+struct RecMsc
+{
+    UrbanMsc inner;
+    NativeCRef<UrbanMscData> const* shared;
+    NativeRef<RngStateData> const* rng_states;
+
+    bool is_applicable(CoreTrackView const& track, real_type step) const
+    {
+        bool r = inner.is_applicable(track, step);
+        auto& rec = g_store.rec[track.track_slot_id().unchecked_get()];
+        rec.has_m = true;
+        rec.m_appl = r ? 1 : 0;
+        rec.m_phys = step;
+        rec.m_alg = static_cast<int>(track.make_physics_view().scalars().step_limit_algorithm);
+        return r;
+    }
+
+    void limit_step(CoreTrackView const& track)
+    {
+        auto& rec = g_store.rec[track.track_slot_id().unchecked_get()];
+        auto phys = track.make_physics_view();
+        auto par = track.make_particle_view();
+        auto sim = track.make_sim_view();
+        auto geo = track.make_geo_view();
+        detail::UrbanMscHelper helper(*shared, par, phys);
+        rec.m_phys = sim.step_length();
+        rec.m_onb = geo.is_on_boundary() ? 1 : 0;
+        rec.m_maxstep = helper.max_step();
+        rec.m_mfp = helper.msc_mfp();
+        rec.m_range = phys.dedx_range();
+        {
+            MscRange const& r0 = phys.msc_range();
+            rec.m_v0 = r0 ? 1 : 0;
+            rec.m_ri0 = r0.range_init;
+            rec.m_rf0 = r0.range_factor;
+            rec.m_lm0 = r0.limit_min;
+        }
+        // the same pre-conditions UrbanMsc::limit_step evaluates before it builds a step limiter
+        rec.m_lim = 0;
+        rec.m_safety = 0;
+        if (!(sim.step_length() <= shared->params.limit_min_fix()))
+        {
+            bool far = false;
+            if (!geo.is_on_boundary())
+            {
+                rec.m_safety = geo.find_safety(rec.m_maxstep);
+                far = rec.m_safety >= rec.m_maxstep;
+            }
+            rec.m_lim = far ? 0 : 1;
+        }
+        // standard normal the Gaussian step sampler would draw at this RNG state
+        {
+            XorwowState saved = rng_states->state[track.track_slot_id()];
+            auto rng = track.make_rng_engine();
+            NormalDistribution<real_type> unit(0, 1);
+            rec.m_z = unit(rng);
+            const_cast<NativeRef<RngStateData>*>(rng_states)->state[track.track_slot_id()] = saved;
+        }
+        inner.limit_step(track);
+        {
+            MscRange const& r1 = phys.msc_range();
+            rec.m_v1 = r1 ? 1 : 0;
+            rec.m_ri1 = r1.range_init;
+            rec.m_rf1 = r1.range_factor;
+            rec.m_lm1 = r1.limit_min;
+            auto const& ms = track.make_physics_step_view().msc_step();
+            rec.m_true = ms.true_path;
+            rec.m_geom = ms.geom_path;
+            rec.m_limited = sim.post_step_action() == phys.scalars().msc_action() ? 1 : 0;
+        }
+    }
+
+    void apply_step(CoreTrackView const& track)
+    {
+        auto& rec = g_store.rec[track.track_slot_id().unchecked_get()];
+        auto geo = track.make_geo_view();
+        Real3 const before = geo.pos();
+        bool onb = geo.is_on_boundary();
+        inner.apply_step(track);
+        Real3 const after = track.make_geo_view().pos();
+        rec.m_applied = 1;
+        rec.m_truefinal = track.make_sim_view().step_length();
+        real_type d2 = 0;
+        for (int i = 0; i < 3; ++i)
+            d2 += (after[i] - before[i]) * (after[i] - before[i]);
+        rec.m_dlen = std::sqrt(d2);
+        rec.m_displaced = d2 > 0 ? 1 : 0;
+        rec.m_asafety = 0;
+        if (rec.m_displaced && !onb)
+        {
+            // safety at the pre-displacement point (independent of the value apply_step used):
+            // move back, measure, move forward again (both inside the same volume)
+            auto g2 = track.make_geo_view();
+            g2.move_internal(before);
+            rec.m_asafety = g2.find_safety(10 * rec.m_dlen + shared->params.geom_limit);
+            g2.move_internal(after);
+        }
+    }
+};
+
 //! Along-step action of the harness: the real appliers with recording adapters
 class VAlongStep final : public CoreStepActionInterface
 {
   public:
-    VAlongStep(ActionId id, std::shared_ptr<FluctuationParams const> fluct)
-        : id_(id), fluct_(std::move(fluct))
+    VAlongStep(ActionId id,
+               std::shared_ptr<FluctuationParams const> fluct,
+               std::shared_ptr<UrbanMscParams const> msc)
+        : id_(id), fluct_(std::move(fluct)), msc_(std::move(msc))
     {
     }
     void step(CoreParams const& params, CoreStateHost& state) const final
@@ -309,23 +426,35 @@ class VAlongStep final : public CoreStepActionInterface
                                                                     execute_track)));
         };
         auto const& sref = state.ref();
-        if (fluct_)
+        // the four combinations {NoMsc, RecMsc} x {Mean, Fluct}: same celeritas::AlongStep
+        auto run = [&](auto make_msc) {
+            if (fluct_)
+            {
+                auto const& fref = fluct_->ref<MemSpace::native>();
+                launch([&, make_msc](CoreTrackView& track) {
+                    RecELoss<detail::FluctELoss>::save_rng(sref.rng, track.track_slot_id());
+                    AlongStep{make_msc(),
+                              RecLinearPropagatorFactory{},
+                              RecELoss<detail::FluctELoss>{detail::FluctELoss{fref}, &fref}}(track);
+                });
+            }
+            else
+            {
+                launch([&, make_msc](CoreTrackView& track) {
+                    AlongStep{make_msc(),
+                              RecLinearPropagatorFactory{},
+                              RecELoss<detail::MeanELoss>{detail::MeanELoss{}, nullptr}}(track);
+                });
+            }
+        };
+        if (msc_)
         {
-            auto const& fref = fluct_->ref<MemSpace::native>();
-            launch([&](CoreTrackView& track) {
-                RecELoss<detail::FluctELoss>::save_rng(sref.rng, track.track_slot_id());
-                AlongStep{detail::NoMsc{},
-                          RecLinearPropagatorFactory{},
-                          RecELoss<detail::FluctELoss>{detail::FluctELoss{fref}, &fref}}(track);
-            });
+            auto const& mref = msc_->ref<MemSpace::native>();
+            run([&mref, &sref] { return RecMsc{UrbanMsc{mref}, &mref, &sref.rng}; });
         }
         else
         {
-            launch([&](CoreTrackView& track) {
-                AlongStep{detail::NoMsc{},
-                          RecLinearPropagatorFactory{},
-                          RecELoss<detail::MeanELoss>{detail::MeanELoss{}, nullptr}}(track);
-            });
+            run([] { return detail::NoMsc{}; });
         }
     }
     void step(CoreParams const&, CoreStateDevice&) const final { CELER_NOT_CONFIGURED("CUDA"); }
@@ -340,6 +469,7 @@ class VAlongStep final : public CoreStepActionInterface
   private:
     ActionId id_;
     std::shared_ptr<FluctuationParams const> fluct_;
+    std::shared_ptr<UrbanMscParams const> msc_;
 };
 
 //---------------------------------------------------------------------------------------------
@@ -355,6 +485,13 @@ struct VInteractor
         auto& rec = g_store.rec[track.track_slot_id().unchecked_get()];
         Interaction result = this->sample(track);
         rec.has_x = true;
+        ++rec.x_calls;
+        char const first_kind = result.action == Interaction::Action::scattered   ? 's'
+                                : result.action == Interaction::Action::absorbed  ? 'a'
+                                : result.action == Interaction::Action::unchanged ? 'u'
+                                                                                  : 'f';
+        if (rec.x_calls == 1)
+            rec.x_first = first_kind;
         rec.x_kind = result.action == Interaction::Action::scattered   ? 's'
                      : result.action == Interaction::Action::absorbed  ? 'a'
                      : result.action == Interaction::Action::unchanged ? 'u'
@@ -740,6 +877,25 @@ class MockFix : public MockTestBase
         using namespace units;
         constexpr auto zero = zero_quantity();
         ParticleParams::Input inp;
+        if (c_.msc)
+        {
+            // MscParamsHelper::build_xs indexes its two-entry table array with the PARTICLE ID of
+            // the electron (`xs_tables_[par_ids_[0].get()]`), i.e. it silently assumes that e- and
+            // e+ are particles 0 and 1: with any other numbering it reads out of bounds (SIGSEGV
+            // with the stock mock order).  With `msc 1` the electron and positron come first.
+            inp.push_back({"electron", pdg::electron(), MevMass{0.5109989461},
+                           ElementaryCharge{-1}, stable_decay_constant});
+            inp.push_back({"positron", pdg::positron(), MevMass{0.5109989461},
+                           ElementaryCharge{1}, stable_decay_constant});
+            inp.push_back({"gamma", pdg::gamma(), zero, zero, stable_decay_constant});
+            inp.push_back({"celeriton", PDGNumber{1337}, MevMass{1}, ElementaryCharge{1},
+                           stable_decay_constant});
+            inp.push_back({"anti-celeriton", PDGNumber{-1337}, MevMass{1}, ElementaryCharge{-1},
+                           stable_decay_constant});
+            inp.push_back({"celerino", PDGNumber{81}, MevMass{0}, ElementaryCharge{0},
+                           stable_decay_constant});
+            return std::make_shared<ParticleParams>(std::move(inp));
+        }
         inp.push_back({"gamma", pdg::gamma(), zero, zero, stable_decay_constant});
         inp.push_back({"celeriton", PDGNumber{1337}, MevMass{1}, ElementaryCharge{1},
                        stable_decay_constant});
@@ -787,6 +943,11 @@ class MockFix : public MockTestBase
     {
         PhysicsOptions o;
         o.secondary_stack_factor = c_.stackfactor;
+        for (auto a : range(MscStepLimitAlgorithm::size_))
+        {
+            if (c_.mscalg == to_cstring(a))
+                o.step_limit_algorithm = a;
+        }
         for (auto const& kv : c_.opts)
         {
             if (kv.first == "min_range")
@@ -799,6 +960,12 @@ class MockFix : public MockTestBase
                 o.linear_loss_limit = kv.second;
             else if (kv.first == "lowest_electron_energy")
                 o.lowest_electron_energy = units::MevEnergy{kv.second};
+            else if (kv.first == "lambda_limit")
+                o.lambda_limit = kv.second;
+            else if (kv.first == "range_factor")
+                o.range_factor = kv.second;
+            else if (kv.first == "safety_factor")
+                o.safety_factor = kv.second;
         }
         return o;
     }
@@ -875,20 +1042,59 @@ class MockFix : public MockTestBase
             reg.insert(result);
             return result;
         }
+        auto msc = this->build_msc();
         if (c_.along == "linear" || c_.along == "fluct")
         {
             auto result = AlongStepGeneralLinearAction::from_params(
-                reg.next_id(), *this->material(), *this->particle(), nullptr,
-                c_.along == "fluct");
+                reg.next_id(), *this->material(), *this->particle(), msc, c_.along == "fluct");
             reg.insert(result);
             return result;
         }
         std::shared_ptr<FluctuationParams const> fluct;
         if (c_.along == "vfluct")
             fluct = std::make_shared<FluctuationParams>(*this->particle(), *this->material());
-        auto result = std::make_shared<VAlongStep>(reg.next_id(), fluct);
+        auto result = std::make_shared<VAlongStep>(reg.next_id(), fluct, msc);
         reg.insert(result);
         return result;
+    }
+
+    //! Urban MSC parameters from hand-made tables (no Geant4 data): one log-spaced vector of
+    //! the energy-squared-scaled macroscopic cross section per material for e- and e+
+    std::shared_ptr<UrbanMscParams const> build_msc()
+    {
+        if (!c_.msc)
+            return nullptr;
+        std::vector<ImportMscModel> models;
+        // per material: inner (lo density), middle (composite), outer (hi density), world
+        double const base[] = {1.0, 1.0e3, 10.0, 1.0e-12};
+        for (int pdg : {11, -11})
+        {
+            ImportMscModel m;
+            m.particle_pdg = pdg;
+            m.model_class = ImportModelClass::urban_msc;
+            m.xs_table.table_type = ImportTableType::msc_xs;
+            m.xs_table.x_units = ImportUnits::mev;
+            m.xs_table.y_units = ImportUnits::mev_2_per_cm;
+            for (double b : base)
+            {
+                ImportPhysicsVector v;
+                v.vector_type = ImportPhysicsVectorType::log;
+                int const n = 25;   // 1e-4 .. 100 MeV, 4 points per decade
+                for (int i = 0; i < n; ++i)
+                {
+                    double e = 1e-4 * std::pow(10.0, i / 4.0);
+                    if (i == n - 1)
+                        e = 100.0;
+                    v.x.push_back(e);
+                    // mildly energy dependent, a little larger for e+
+                    v.y.push_back(c_.mscxs * b * (1.0 + 0.1 * std::log10(e / 1e-4))
+                                  * (pdg < 0 ? 1.05 : 1.0));
+                }
+                m.xs_table.physics_vectors.push_back(std::move(v));
+            }
+            models.push_back(std::move(m));
+        }
+        return std::make_shared<UrbanMscParams>(*this->particle(), *this->material(), models);
     }
 
   private:
@@ -1195,6 +1401,14 @@ void run_problem(Fix& fix, Config const& c)
                  + to_cstring(a->order()) + " " + std::string(a->label()));
         }
     }
+    if (!c.quiet)
+    {
+        // every action of the registry (explicit and implicit), by its own label
+        for (auto aidx : range(reg.num_actions()))
+        {
+            emit("B " + std::to_string(aidx) + " " + std::string(reg.action(ActionId{aidx})->label()));
+        }
+    }
     {
         auto const& ps = host.physics.scalars;
         auto const& cs = host.scalars;
@@ -1221,6 +1435,13 @@ void run_problem(Fix& fix, Config const& c)
         emit("Y lowest_electron_energy " + vh::hexd(ps.lowest_electron_energy.value()));
         emit("Y sqrt_tol " + vh::hexd(celeritas::sqrt_tol()));
         emit(std::string("Y postcut ") + (host.cutoffs.apply_post_interaction ? "1" : "0"));
+        emit("Y msc_range_factor " + vh::hexd(ps.range_factor));
+        emit("Y msc_lambda_limit " + vh::hexd(ps.lambda_limit));
+        emit("Y msc_safety_factor " + vh::hexd(ps.safety_factor));
+        emit("Y msc_limit_min_fix " + vh::hexd(UrbanMscParameters::limit_min_fix()));
+        emit("Y msc_safety_tol " + vh::hexd(UrbanMscParameters{}.safety_tol));
+        emit("Y msc_geom_limit " + vh::hexd(UrbanMscParameters{}.geom_limit));
+        emit(std::string("Y msc_alg ") + std::to_string(static_cast<int>(ps.step_limit_algorithm)));
         auto const& pp = *fix.particle();
         for (auto pid : range(ParticleId{pp.size()}))
         {
@@ -1290,6 +1511,8 @@ void run_problem(Fix& fix, Config const& c)
                     emit(vh::format_G(g_store.iter, s, rec));
                 if (rec.has_l)
                     emit(vh::format_L(g_store.iter, s, rec));
+                if (rec.has_m)
+                    emit(vh::format_M(g_store.iter, s, rec));
                 if (rec.has_x)
                     emit(vh::format_X(g_store.iter, s, rec));
             }
@@ -1412,6 +1635,14 @@ int main()
             c.maxsteps = u;
         else if (k == "errat" && t.size() == 2 && parse_ulong(t[1], &u))
             c.errat = u;
+        else if (k == "msc" && t.size() == 2 && parse_ulong(t[1], &u))
+            c.msc = u != 0;
+        else if (k == "mscxs" && t.size() == 2 && parse_double(t[1], &d) && d > 0)
+            c.mscxs = d;
+        else if (k == "mscalg" && t.size() == 2
+                 && (t[1] == "minimal" || t[1] == "safety" || t[1] == "safety_plus"
+                     || t[1] == "distance_to_boundary"))
+            c.mscalg = t[1];
         else if (k == "stackfactor" && t.size() == 2 && parse_double(t[1], &d) && d >= 0)
             c.stackfactor = d;
         else if (k == "order" && t.size() == 2 && (parse_order(t[1], &ok), ok))
@@ -1465,7 +1696,7 @@ int main()
                       << " maxsteps " << c.maxsteps << " along " << c.along << " interactor "
                       << c.interactor << " posrest " << c.posrest << " postcut " << c.postcut
                       << " xsscale " << c.xsscale << " lossscale " << c.lossscale << " errat " << c.errat
-                      << "\n";
+                      << " msc " << c.msc << " mscalg " << c.mscalg << " mscxs " << c.mscxs << "\n";
             std::cout.flush();
             try
             {
